@@ -16,7 +16,7 @@ SIG = {
     'tospan': 'G', 'toslice': 'G', 'mwspan': 'G', 'mwstate': 'G', 'mwctx': 'G', 'validate': 'PNNG',
     'collect': ['K', 'IT'], 'collectx': ['N', 'IT'], 'foldl': ['F', 'G', 'IT'], 'foldr': ['F', 'IT', 'G'],
     'foldlw': ['G', 'IT'], 'foldrw': ['IT', 'G'], 'iterp': ['IT'],
-    'recvia': 'GG', 'recskip': 'GGGV', 'recretry': 'GGG', 'label': 'NBG', 'maperr': 'NG',
+    'recvia': 'GG', 'recskip': 'GGGV', 'recretry': 'GGG', 'recnd': 'GNNNL', 'ndblock': 'NNNL', 'label': 'NBG', 'maperr': 'NG',
     'withctx': 'VG', 'iwctx': 'GG', 'twctx': 'GG', 'mapctx': 'XG', 'cfgjust': 'CL', 'withstate': 'G',
     'memo': 'NG', 'memonest': 'NG', 'memozst': 'N', 'lazy': 'G', 'call': 'N', 'boxed': 'G',
     # iterators
@@ -351,6 +351,33 @@ def ctx_family():
     out.append(('withctx', ('vtoks', [B]), ('then', ('ornot', ('iwctx', ('just', [A]), ('mwctx', ('just', [51])))), ('mwctx', ('cfgjust', 'seqctx', [A])))))
     out.append(('iwctx', opener, ('mapctx', 'lenof', ('collect', 'vec', ('cfgrep', 'exactlyctx', ('rep', ('just', [50]), 0, None))))))
     out.append(('iwctx', opener, ('mapctx', ('ctag', 3), ('mwctx', ('any',)))))
+    return out
+
+
+LB, RB, LC, RC = 91, 93, 123, 125
+
+
+def nd_family():
+    """recover_with(via_parser(nested_delimiters(start, end, others, ..))): (grammar, defs) pairs. The model needs the recursive
+    block of the strategy as definition 0 (`ndblock`); the real function builds its own."""
+    a, b = ('just', [A]), ('just', [B])
+    rest = ('collect', 'string', ('rep', ('any',), 0, None))
+    out = []
+    for (s, e, others) in [(LP, RP, []), (LP, RP, [LB, RB]), (LB, RB, [LP, RP]), (LP, RP, [LB, RB, LC, RC]), (LP, LP, []), (LP, RP, [RP, LP])]:
+        defs = [('ndblock', 0, s, e, others)]
+        nd = lambda p: ('recnd', p, 0, s, e, others)
+        block = ('delim', ('collect', 'vec', ('rep', a, 0, None)), ('just', [s]), ('just', [e]))
+        ps = [block, ('delim', a, ('just', [s]), ('just', [e])), ('then', ('just', [s]), ('then', b, ('just', [e]))), a,
+              ('delim', ('validate', 'always', 5, 1, a), ('just', [s]), ('just', [e]))]
+        for p in ps:
+            r = nd(p)
+            for g in [('then', r, rest), ('then', ('collect', 'vec', ('rep', r, 0, None)), rest),
+                      ('then', ('or', ('then', r, b), ('then', r, a)), rest), ('then', a, ('then', r, rest)),
+                      ('then', ('collect', 'vec', ('sep', r, ('just', [COMMA]), 0, None, False, True)), rest),
+                      ('then', ('ornot', ('then', r, b)), rest), r,
+                      # recovery inside the region that is recovered: the outer strategy skips over the inner one's region
+                      ('then', ('recnd', ('delim', r, ('just', [s]), ('just', [e])), 0, s, e, others), rest)]:
+                out.append((g, defs))
     return out
 
 
